@@ -380,6 +380,10 @@ pub struct Hist {
     /// fills: number of commands pushed by fault injection
     pub fill_cmds: u64,
     pub limit_hit: bool,
+    /// OS threads created during the case according to the process-wide ThreadId counter, and
+    /// the number the harness itself spawned (vthreads)
+    pub thread_ids_used: u64,
+    pub threads_spawned_by_harness: u64,
 }
 
 impl Hist {
